@@ -12,11 +12,30 @@ structure IntrospectReq where
 def matchScopes (cfg : Config) (granted scopes : List String) : Bool :=
   scopes.all (fun s => s == "" || cfg.scopeStrategy.run (granted.map String.toList) s.toList)
 
+/-- has the access token expired?  HMAC strategy: `exp.Before(now)` on the stored session (with the
+    `requestedAt + lifespan` fallback).  JWT strategy: `MapClaims.Valid()` on the token's own `exp` claim, which
+    is the session expiry in whole seconds (`exp.Unix()`): refused once the current second is past it; a token
+    without the claim never expires. -/
+def accessExpired (cfg : Config) (r : Req) (now : Time) : Bool :=
+  if cfg.jwtAccess then
+    match r.sess.expAccess with
+    | some e => decide (e / second < now / second)
+    | none => false
+  else expiredAt r.sess.expAccess r.requestedAt cfg.atLife now
+
+/-- the two validity checks of `ValidateAccessToken` in the order the configured strategy makes them: the
+    HMAC strategy looks at the expiry first and at the MAC second; the JWT strategy verifies the signature
+    first (`toRFCErr`: signature errors win over an expired claim) -/
+def atCheck1 (cfg : Config) (r : Req) (exact : Bool) (now : Time) : Bool × Err :=
+  if cfg.jwtAccess then (exact, .token_signature_mismatch) else (!accessExpired cfg r now, .token_expired)
+def atCheck2 (cfg : Config) (r : Req) (exact : Bool) (now : Time) : Bool × Err :=
+  if cfg.jwtAccess then (!accessExpired cfg r now, .token_expired) else (exact, .token_signature_mismatch)
+
 /-- `CoreValidator.introspectAccessToken` -/
 def introspectAccess (cfg : Config) (now : Time) (q : IntrospectReq) : HP Req := do
   let r ← expectReq (.getAccess q.token.sig) (fun _ => retErr .request_unauthorized)
-  HP.guard (!expiredAt r.sess.expAccess r.requestedAt cfg.atLife now) .token_expired
-  HP.guard q.token.exact .token_signature_mismatch
+  HP.guard (atCheck1 cfg r q.token.exact now).1 (atCheck1 cfg r q.token.exact now).2
+  HP.guard (atCheck2 cfg r q.token.exact now).1 (atCheck2 cfg r q.token.exact now).2
   HP.guard (matchScopes cfg r.grantedScopes q.scopes) .invalid_scope
   return r
 
